@@ -190,6 +190,14 @@ def run(ctx):
             if not pg.has_exists(it.goal):
                 dd["g"] = ("goal", pg.goal_model(it.goal, it.prog.symtab()))
                 ee.append((["P", "g"], logic.bb("f7q_class 150 P g")))
+            else:
+                from checks import c01
+                st = it.prog.symtab()
+                pre = it.answers["rec"][0] or it.answers["slg"][0]
+                phmap, _, _ = pg.prefix_phmap(pre)
+                cands = c01.candidates(it, ctx.rng, 24, q[1], q[2])
+                dd["c"] = ("list (list ty)", [[c01._cm_ph(t, st, phmap) for t in c] for c in cands])
+                ee.append((["P", "q", "c"], logic.bb("f7q_query 150 P q c")))
             cc, fl = logic.coq_codes(ctx.work, "cls%d" % k, dd, ee)
             k1 = logic.answer_kind(it.answers["slg"][1])
             k2 = logic.answer_kind(it.answers["rec"][1])
